@@ -327,7 +327,8 @@ Proof.
   pose proof (C1 vf ps binds Hpf1 Hb) as HC1. rewrite <- Ssel in HC1.
   pose proof (C2 vf ps binds Hpf2 Hb) as HC2.
   rewrite (run_sql_unfold rows s binds ln lk); try (rewrite ?Slim, ?Soff; assumption).
-  rewrite Hlim, Hoff, ssort_isort.
+  rewrite Hlim, Hoff, ssort_isort. fold (drop_skip k (isort (srow_cmp binds s) (filter (fun r : row => is_true (where_eval binds r (json_object binds s r) s)) rows))).
+  match goal with |- Some (map _ (if Z.leb n 0 then ?x else firstn (Z.to_nat n) ?x)) = _ => fold (take_first n x) end.
   assert (Hwhere : forall r, In r rows ->
      is_true (where_eval binds r (json_object binds s r) s) =
      (forallb (fun fv : qfilter * val => holds (fl_op (fst fv)) (ref_value m q r (fl_ref (fst fv))) (snd fv)) (combine (q_filters q) fvals)
